@@ -599,8 +599,7 @@ theorem byteAt_slice (d : Bytes) (s l i : Nat) (hi : i < l) : byteAt (slice d s 
 
 /-- **C04.sam_extra_text** — `_get_extra_field` (repaired rule) returns the record's text after its
 11th field and the following separator, up to the line terminator (LF or CRLF); empty when there are no tags -/
-theorem sam_extra_text (e : Ext) (h : WF e) (hne : ∀ r ∈ e.rows, 0 < r.fS.length)
-    (h2b : ∀ r ∈ e.rows, r.eS + 2 ≤ r.eE) :
+theorem sam_extra_text (e : Ext) (h : WF e) (hne : ∀ r ∈ e.rows, 0 < r.fS.length) :
     e.samExtra = e.abs.map (·.extra) := by
   unfold Ext.samExtra Ext.abs
   rw [List.map_map]
@@ -609,7 +608,19 @@ theorem sam_extra_text (e : Ext) (h : WF e) (hne : ∀ r ∈ e.rows, 0 < r.fS.le
   simp only [Function.comp]
   obtain ⟨h1, h2, h3, h4, h5⟩ := h.2 r hr
   obtain ⟨lb1, lb2⟩ := last_bounds r _ (h.2 r hr) (hne r hr)
-  have hlen := h2b r hr
+  by_cases hlen : r.eS + 2 ≤ r.eE
+  case neg =>
+    -- a record shorter than two bytes has no room for tags: both sides are empty, whatever byte the CR test looks at
+    unfold Rec.extra absRow
+    simp only
+    rw [rel_getLast r h3 (hne r hr)]
+    simp only
+    rw [slice_length _ _ _ (by omega)]
+    generalize (if byteAt e.data (r.eE - 2) == 13 then 1 else 0 : Nat) = c
+    generalize (if byteAt (slice e.data r.eS (r.eE - r.eS)) (r.eE - r.eS - 2) == 13 then 1 else 0 : Nat) = c'
+    have z1 : r.eE - 1 - c - (r.fS.getLastD 0 + r.fL.getLastD 0 + 1) = 0 := by omega
+    have z2 : r.eE - r.eS - 1 - c' - (r.fS.getLastD 0 - r.eS + r.fL.getLastD 0 + 1) = 0 := by omega
+    rw [z1, z2]; simp [slice]
   unfold Rec.extra absRow
   simp only
   rw [rel_getLast r h3 (hne r hr)]
